@@ -158,10 +158,78 @@ class Entry:
         return cls(d['name'], [tuple(p) for p in d['params']], [tuple(v) for v in d['vectors']] if d.get('vectors') is not None else None, d.get('tag'), d.get('grid'))
 
 
+class _Instrument(__import__('ast').NodeTransformer):
+    """Pass 1 only: every binary operation (also in augmented assignments) goes through chk_, which records the
+    operations on which Python and C++ differ by construction whatever the operand types are (bool operands and
+    comparison results escape the CInt tracking: bool + CInt is computed by int.__add__)."""
+    import ast as _ast
+    OPS = {_ast.Add: '+', _ast.Sub: '-', _ast.Mult: '*', _ast.Mod: '%', _ast.FloorDiv: '//', _ast.Div: '/', _ast.LShift: '<<', _ast.RShift: '>>'}
+
+    def visit_BinOp(self, node):
+        ast = self._ast
+        self.generic_visit(node)
+        op = self.OPS.get(type(node.op))
+        if op is None:
+            return node
+        return ast.copy_location(ast.Call(func=ast.Name(id='chk_', ctx=ast.Load()), args=[ast.Constant(op), node.left, node.right], keywords=[]), node)
+
+    def visit_AugAssign(self, node):
+        ast = self._ast
+        self.generic_visit(node)
+        op = self.OPS.get(type(node.op))
+        if op is None or not isinstance(node.target, ast.Name):
+            return node
+        load = ast.Name(id=node.target.id, ctx=ast.Load())
+        call = ast.Call(func=ast.Name(id='chk_', ctx=ast.Load()), args=[ast.Constant(op), load, node.value], keywords=[])
+        return ast.copy_location(ast.Assign(targets=[ast.Name(id=node.target.id, ctx=ast.Store())], value=call), node)
+
+
+def _chk(op, a, b):
+    import operator
+    fn = {'+': operator.add, '-': operator.sub, '*': operator.mul, '%': operator.mod, '//': operator.floordiv, '/': operator.truediv, '<<': operator.lshift, '>>': operator.rshift}[op]
+    if isinstance(a, int) and isinstance(b, int):
+        ia, ib = int(a), int(b)
+        why = None
+        if op in ('%', '//', '/') and ib == 0:
+            why = 'zero-division'
+        elif op == '%' and (ia < 0 or ib < 0):
+            why = 'negative-modulo'
+        elif op == '//':
+            why = 'floor-division'
+        elif op == '/':
+            why = 'int-true-division'
+        elif op == '<<' and (ib < 0 or ib >= 31 or ia < 0):
+            why = 'shift-range'
+        elif op == '>>' and (ib < 0 or ib >= 31):
+            why = 'shift-range'
+        if why:
+            Flags.hit = Flags.hit or why
+            if why in ('zero-division', 'shift-range'):
+                return 0
+        r = fn(a, b)
+        if isinstance(r, int) and not isinstance(r, bool) and abs(int(r)) >= 2 ** 31:
+            Flags.hit = Flags.hit or 'overflow'
+        return r
+    return fn(a, b)
+
+
+def _instrumented(source: str) -> dict:
+    import ast
+    tree = _Instrument().visit(ast.parse(source))
+    ast.fix_missing_locations(tree)
+    ns: dict = {'__name__': 'prog', 'chk_': _chk}
+    exec(compile(tree, '<prog-pass1>', 'exec'), ns)
+    return ns
+
+
 def run_python(source: str, entries, fields):
     """Returns {(name, k): encoding | '!exc' | ('skip', why)}."""
     ns: dict = {'__name__': 'prog'}
     exec(compile(source, '<prog>', 'exec'), ns)
+    try:
+        ns1 = _instrumented(source)
+    except Exception:  # noqa  -- fall back to the operator tracking alone
+        ns1 = None
     out = {}
     for e in entries:
         fn = ns[e.name]
@@ -172,6 +240,8 @@ def run_python(source: str, entries, fields):
             targs = [CInt(a) if isinstance(a, int) and not isinstance(a, bool) else ([CInt(x) if isinstance(x, int) and not isinstance(x, bool) else x for x in a] if isinstance(a, list) else a) for a in args]
             try:
                 fn(*targs)
+                if ns1 is not None and not Flags.hit:
+                    ns1[e.name](*[py_value(v, kind, ns1) for v, (_, kind) in zip(vec, e.params)])
             except RecursionError:
                 Flags.hit = 'recursion'
             except (ZeroDivisionError, OverflowError):
